@@ -61,7 +61,7 @@ func c13SpecType(kind string) reflect.Type {
 		if k := filters.GetKind(kind); k != nil {
 			v = k.DefaultSpec()
 		} else if k := resilience.GetKind(kind); k != nil {
-			v = k.DefaultSpec()
+			v = k.DefaultPolicy()
 		}
 	}
 	if v == nil {
